@@ -179,6 +179,23 @@ def var_modifiers(var_name: str) -> List[str]:
     return []
 
 
+def safe_str(value) -> str:
+    """
+    Get the string form of a value, if the conversion fails a placeholder is used instead.
+
+    The result is always valid text: characters that cannot be encoded (e.g. lone surrogates) are escaped.
+
+    :param value: the value to convert
+    :return: the string form of the value
+    """
+    try:
+        value_str = str(value)
+    except BaseException:
+        # it is possible for str to fail if there is a custom __str__ function
+        value_str = f'{type(value)}@{id(value)}'
+    return value_str.encode('utf-8', 'backslashreplace').decode('utf-8')
+
+
 def variable_to_string(variable_type, var_value):
     """
     Convert the variable to a string.
@@ -196,12 +213,8 @@ def variable_to_string(variable_type, var_value):
         # large, and quite pointless, instead we just get the size of the collection
         return 'Size: %s' % len(var_value)
     else:
-        try:
-            # everything else just gets a string value
-            return str(var_value)
-        except Exception:
-            # it is possible for str to fail if there is a custom __str__ function
-            return f'{type(var_value)}@{id(var_value)}'
+        # everything else just gets a string value
+        return safe_str(var_value)
 
 
 def process_variable(var_collector: Collector, node: NodeValue) -> VariableResponse:
@@ -288,7 +301,12 @@ def process_child_nodes(
             var_collector.append_child(variable_id, child)
 
     # scan the child based on type
-    return find_children_for_parent(var_collector, VariableParent(), var_value, variable_type)
+    try:
+        return find_children_for_parent(var_collector, VariableParent(), var_value, variable_type)
+    except BaseException:
+        # if we cannot read the children (e.g. attribute access fails) then collect the value without them
+        logging.debug("Cannot process children of type %s", variable_type)
+        return []
 
 
 def correct_names(name, val):
@@ -322,11 +340,10 @@ def find_children_for_parent(var_collector: Collector, parent_node: ParentNode, 
         return process_list_breadth_first(var_collector, parent_node, value)
     elif isinstance(value, Exception):
         return process_list_breadth_first(var_collector, parent_node, value.args)
-    elif hasattr(value, '__class__'):
+    elif isinstance(getattr(value, '__dict__', None), dict):
         return process_dict_breadth_first(parent_node, variable_type.__name__, value.__dict__, correct_names)
-    elif hasattr(value, '__dict__'):
-        return process_dict_breadth_first(parent_node, variable_type.__name__, value.__dict__)
     else:
+        # values without an attribute dictionary (builtin types, slots) have no children to collect
         logging.debug("Unknown type processed %s", variable_type)
         return []
 
@@ -346,9 +363,9 @@ def process_dict_breadth_first(parent_node, type_name, value, func=lambda x, y: 
     :return (list): the collected child nodes
     """
     # we wrap the keys() in a call to list to prevent concurrent changes
-    return [Node(value=NodeValue(func(type_name, key), value[key], key), parent=parent_node) for key in
-            list(value.keys()) if
-            key in value]
+    # keys can be any hashable value, the variable names are always text
+    return [Node(value=NodeValue(func(type_name, safe_str(key)), value[key], safe_str(key)), parent=parent_node)
+            for key in list(value.keys()) if key in value]
 
 
 def process_list_breadth_first(var_collector: Collector, parent_node: ParentNode, value) -> List[Node]:
